@@ -398,6 +398,13 @@ fn step(ctl: &mut Ctl, a: &str, p: &str, v: u64, exp: &Value, ra: bool, free: bo
             // did the call return exactly when the spec says so?
             if !ctl.procs[&name].is_writer {
                 let spec_done = exp["r"][p]["pc"] == "done";
+                if spec_done && i.done.is_none() && exp["r"][p]["k"] == "error" {
+                    // the model's retry budget (a small constant in the model-checking configurations) is exhausted,
+                    // the code's is not: the real call is abandoned here; that the real budget is finite is C18's
+                    // stalled-writer matrix
+                    let i2 = ctl.release(&name, Directive::Crash)?;
+                    return Ok(StepResult::Match(n, tr(&i2)));
+                }
                 if spec_done != i.done.is_some() {
                     return Ok(StepResult::Drift(format!("{a}: spec call {} but real call {}", if spec_done { "returned" } else { "continues" }, if i.done.is_some() { format!("returned {:?}", i.done) } else { format!("continues at {:?}", i.pending) }), tr(&i)));
                 }
